@@ -78,7 +78,9 @@ void PoolWakeState::wakeRange(int32_t count) {
   // immediately without sleeping.
   int32_t lastGroup = (count - 1) / groupSize_;
   for (int32_t g = 0; g <= lastGroup && g < numGroups_; ++g) {
-    uint64_t mask = groupStates_[static_cast<size_t>(g)].sleepMask.load(std::memory_order_relaxed);
+    const uint64_t groupMask =
+        groupStates_[static_cast<size_t>(g)].sleepMask.load(std::memory_order_relaxed);
+    uint64_t mask = groupMask;
     if (g == lastGroup) {
       int32_t bitsInLastGroup = count - g * groupSize_;
       if (bitsInLastGroup < 64) {
@@ -94,7 +96,10 @@ void PoolWakeState::wakeRange(int32_t count) {
     } else {
       // At least one worker is parked — need a real wake. Wake just
       // the parked ones (bumpAndWakeN counts).
-      int32_t numSleepers = detail::countSetBits(mask);
+      // The group shares one futex, so the kernel picks which waiters to wake: to be sure the
+      // targeted threads are among them, wake every sleeper of the group (not just as many as
+      // there are targeted sleepers).
+      int32_t numSleepers = detail::countSetBits(groupMask);
       waiter.bumpAndWakeN(numSleepers, groupSize_);
     }
   }
@@ -154,7 +159,9 @@ bool PoolWakeState::cascadeWakeSeed(int32_t count) {
   // get prompt futex wakes. The extra syscalls are negligible — they only
   // fire when threads are actually sleeping.
   for (int32_t g = 0; g <= lastGroup; ++g) {
-    uint64_t mask = groupStates_[static_cast<size_t>(g)].sleepMask.load(std::memory_order_relaxed);
+    const uint64_t groupMask =
+        groupStates_[static_cast<size_t>(g)].sleepMask.load(std::memory_order_relaxed);
+    uint64_t mask = groupMask;
     if (g == lastGroup) {
       int32_t bitsInLastGroup = count - g * groupSize_;
       if (bitsInLastGroup < 64) {
@@ -165,7 +172,8 @@ bool PoolWakeState::cascadeWakeSeed(int32_t count) {
     if (mask == 0) {
       waiter.bump();
     } else {
-      int32_t numSleepers = detail::countSetBits(mask);
+      // See wakeRange: wake every sleeper of the group so the targeted threads are included.
+      int32_t numSleepers = detail::countSetBits(groupMask);
       waiter.bumpAndWakeN(numSleepers, groupSize_);
     }
   }
